@@ -218,6 +218,8 @@ pub enum ConnectMode {
 pub struct ConnectorState {
     pub mode: Mutex<ConnectMode>,
     pub invocations: AtomicU64,
+    /// connector calls made without a preceding poll_ready on that instance
+    pub unready_calls: AtomicU64,
     /// answer only after one Pending
     pub delayed: bool,
     pub chop_client: (Vec<usize>, usize),
@@ -246,12 +248,45 @@ impl Future for YieldOnce {
 }
 
 /// The connector service handed to `Endpoint::connect_with_connector[_lazy]`.
+/// What the scripted connector fails with.
+pub type ConnErr = Box<dyn std::error::Error + Send + Sync>;
+
 pub fn connector(
     st: Arc<ConnectorState>,
-) -> impl tower_service::Service<http::Uri, Response = hyper_util::rt::TokioIo<NetIo>, Error = io::Error, Future = Pin<Box<dyn Future<Output = Result<hyper_util::rt::TokioIo<NetIo>, io::Error>> + Send>>> + Send + 'static
+) -> impl tower_service::Service<http::Uri, Response = hyper_util::rt::TokioIo<NetIo>, Error = ConnErr, Future = Pin<Box<dyn Future<Output = Result<hyper_util::rt::TokioIo<NetIo>, ConnErr>> + Send>>> + Send + 'static
 {
-    tower::service_fn(move |uri: http::Uri| {
-        let st = st.clone();
+    ContractConnector { st, ready: false }
+}
+
+/// The scripted connector. It keeps the tower `Service` contract like a connector built from
+/// `ConcurrencyLimit` / `Buffer` / `RateLimit` would: `call` is only legal after `poll_ready`
+/// returned `Ready` on the same instance (such connectors panic otherwise, which would take the
+/// channel's worker down). A call without that is counted in `ConnectorState::unready_calls`.
+pub struct ContractConnector {
+    st: Arc<ConnectorState>,
+    ready: bool,
+}
+
+impl Clone for ContractConnector {
+    fn clone(&self) -> Self {
+        // readiness belongs to the instance it was obtained on
+        ContractConnector { st: self.st.clone(), ready: false }
+    }
+}
+
+impl tower_service::Service<http::Uri> for ContractConnector {
+    type Response = hyper_util::rt::TokioIo<NetIo>;
+    type Error = ConnErr;
+    type Future = Pin<Box<dyn Future<Output = Result<hyper_util::rt::TokioIo<NetIo>, ConnErr>> + Send>>;
+    fn poll_ready(&mut self, _cx: &mut Context<'_>) -> Poll<Result<(), ConnErr>> {
+        self.ready = true;
+        Poll::Ready(Ok(()))
+    }
+    fn call(&mut self, uri: http::Uri) -> Self::Future {
+        let st = self.st.clone();
+        if !std::mem::take(&mut self.ready) {
+            st.unready_calls.fetch_add(1, Ordering::SeqCst);
+        }
         Box::pin(async move {
             let nth = st.invocations.fetch_add(1, Ordering::SeqCst);
             st.uris.lock().unwrap().push(uri.to_string());
@@ -264,7 +299,12 @@ pub fn connector(
                     // the reason an attempt fails rotates with the attempt number: refused, no such
                     // socket file, timed out, not permitted, unreachable, unspecified
                     const KINDS: [io::ErrorKind; 6] = [io::ErrorKind::ConnectionRefused, io::ErrorKind::NotFound, io::ErrorKind::TimedOut, io::ErrorKind::PermissionDenied, io::ErrorKind::AddrNotAvailable, io::ErrorKind::Other];
-                    Err(io::Error::new(KINDS[nth as usize % KINDS.len()], "scripted connect failure"))
+                    // ... and every attempt number = 1 mod 4, if it fails, is caused by a gRPC status of the connector's own
+                    // (say, a proxy's refusal): it is still a failure to connect
+                    if nth % 4 == 1 {
+                        return Err(Box::new(tonic::Status::permission_denied("the connector's own refusal")) as ConnErr);
+                    }
+                    Err(Box::new(io::Error::new(KINDS[nth as usize % KINDS.len()], "scripted connect failure")) as ConnErr)
                 }
                 ConnectMode::Hang => std::future::pending().await,
                 ConnectMode::Succeed => {
@@ -272,13 +312,13 @@ pub fn connector(
                     st.conns.lock().unwrap().push(c.sever.clone());
                     st.server_ends.lock().unwrap().push(s.sever.clone());
                     if st.incoming.send(s).is_err() {
-                        return Err(io::Error::new(io::ErrorKind::ConnectionRefused, "server is gone"));
+                        return Err(Box::new(io::Error::new(io::ErrorKind::ConnectionRefused, "server is gone")) as ConnErr);
                     }
                     Ok(hyper_util::rt::TokioIo::new(c))
                 }
             }
-        }) as Pin<Box<dyn Future<Output = Result<hyper_util::rt::TokioIo<NetIo>, io::Error>> + Send>>
-    })
+        }) as Pin<Box<dyn Future<Output = Result<hyper_util::rt::TokioIo<NetIo>, ConnErr>> + Send>>
+    }
 }
 
 pub fn connector_state(mode: ConnectMode, delayed: bool, chop: usize) -> (Arc<ConnectorState>, tokio::sync::mpsc::UnboundedReceiver<NetIo>) {
@@ -287,6 +327,7 @@ pub fn connector_state(mode: ConnectMode, delayed: bool, chop: usize) -> (Arc<Co
     let st = ConnectorState {
         mode: Mutex::new(mode),
         invocations: AtomicU64::new(0),
+        unready_calls: AtomicU64::new(0),
         delayed,
         chop_client: menu[chop % menu.len()].clone(),
         chop_server: menu[(chop / menu.len() + chop) % menu.len()].clone(),
